@@ -1,7 +1,7 @@
 \* X07 thorough: core of the process model, depth 5
 SPECIFICATION Spec
 CONSTANTS
-  EnvOmp = {0, 2}
+  EnvOmp = {0}
   Cores = {3}
   Slurm = {0}
   PutVals = {}
@@ -30,6 +30,7 @@ PROPERTY StopSticky
 PROPERTY DoneIsFinal
 PROPERTY RaiseStops
 PROPERTY FlagPerProcess
+PROPERTY PbpOneThread
 ACTION_CONSTRAINT EmitTransition
 VIEW View
 CHECK_DEADLOCK FALSE
